@@ -33,6 +33,15 @@ def run_property(pid, tier, seed, replay=None):
         path = write_replay(pid, "harness_build.json", {"what": "harness build failed", "log": builds["harness"][1][-3000:]})
         say("harness build failed:\n" + builds["harness"][1][-2000:])
         violations.append(("harness does not build against /repo", path, False))
+    impldrv = builds.get("impldrv", IMPLDRV)
+    table_ok = builds.get("table_hook", (True, ""))[0]
+    if builds["harness"][0] and not table_ok and getattr(mod, "USES_TABLE", False):
+        # the hook that exposes the compression table no longer compiles against /repo: the table is not (any more) the map from
+        # label suffixes to offsets that the model - and the theorems about it - describe; the other slices still run
+        path = write_replay(pid, "table_hook.json", {"what": "the compression-table hook (cfg simple_dns_verif_table) does not compile against /repo",
+                                                      "theorems": ["C07_table_sound_throughout", "C03_transparent"],
+                                                      "log": builds["table_hook"][1][-3000:]})
+        violations.append(("the compression-table hook does not compile against /repo", path, False))
     if not builds["modeldrv"][0]:
         path = write_replay(pid, "modeldrv_build.json", {"what": "modeldrv build failed", "log": builds["modeldrv"][1][-3000:]})
         violations.append(("model driver does not build", path, False))
@@ -58,7 +67,7 @@ def run_property(pid, tier, seed, replay=None):
         _lib.ENV["IMPLDRV_CASE_SECS"] = str(getattr(mod, "CASE_SECS", 5))
         _lib.ENV["IMPLDRV_STACK_KB"] = str(getattr(mod, "STACK_KB", 2048))
         per_shard = getattr(mod, "PER_SHARD", 100)
-        impl_out = run_driver(IMPLDRV, cases, timeout=timeout, per_shard=per_shard)
+        impl_out = run_driver(impldrv, cases, timeout=timeout, per_shard=per_shard)
         # the list-based model can be too slow on a pathological input; a model-side timeout says nothing about the code:
         # such a case is not compared (it is counted in the evidence) but the direct oracle still sees the implementation's output
         model_out = run_driver(MODELDRV, cases, timeout=max(timeout, 300), per_shard=per_shard, hang_token="MODEL-TIMEOUT")
@@ -66,7 +75,7 @@ def run_property(pid, tier, seed, replay=None):
         if tier == "thorough" and getattr(mod, "RELEASE_TOO", False):
             rel_out = run_driver(IMPLDRV_REL, cases, timeout=timeout)
         for idx, (c, m, i) in enumerate(zip(cases, model_out, impl_out)):
-            if i == "NOTRUN":
+            if i in ("NOTRUN", "NOTABLE"):
                 continue
             nm, ni = mod.normalize(c, m), mod.normalize(c, i)
             dist[mod.classify(c, i)] += 1
@@ -90,7 +99,7 @@ def run_property(pid, tier, seed, replay=None):
                 lst = mod.followups(c, i) or []
                 spans.append((len(fu), len(lst)))
                 fu.extend(lst)
-            fu_out = run_driver(IMPLDRV, fu, timeout=timeout) if fu else []
+            fu_out = run_driver(impldrv, fu, timeout=timeout) if fu else []
             evaluations += len(fu)
             for (c, i, (a, n)) in zip(cases, impl_out, spans):
                 if n:
@@ -125,7 +134,7 @@ def run_property(pid, tier, seed, replay=None):
         # for an input on which the property itself fails
         found = None
         neigh = [c] + list(getattr(mod, "neighbours", lambda c: [])(c))[:200]
-        nout = run_driver(IMPLDRV, neigh, timeout=getattr(mod, "CASE_TIMEOUT", 600)) if neigh else []
+        nout = run_driver(impldrv, neigh, timeout=getattr(mod, "CASE_TIMEOUT", 600)) if neigh else []
         for (nc, no) in zip(neigh, nout):
             f = mod.oracle(nc, no)
             if f and not is_known(nc, no, f):
